@@ -3,10 +3,14 @@ package an
 import (
 	"encoding/json"
 	"go/ast"
+	"go/token"
 	"go/types"
 	"os"
 
+	"golang.org/x/tools/go/types/typeutil"
+
 	"verif/internal/flow"
+	"verif/internal/load"
 )
 
 // The rule tables name locals of the functions they inspect (`sindex`, `totalCnt`, `fsync`, and by scope ordinal
@@ -53,13 +57,13 @@ func SnapshotOf(info *types.Info, recv *ast.FieldList, ft *ast.FuncType, body *a
 }
 
 // aliasesFor aligns the locals of function fn with the snapshot.
-func (w *World) aliasesFor(fn string, info *types.Info, recv *ast.FieldList, ft *ast.FuncType, body *ast.BlockStmt) map[types.Object]flow.LocalAlias {
+func (w *World) aliasesFor(fn string, info *types.Info, recv *ast.FieldList, ft *ast.FuncType, body *ast.BlockStmt, inl []*flow.InlinedCall) map[types.Object]flow.LocalAlias {
 	snap := w.Vocab[fn]
 	if len(snap) == 0 {
 		return nil
 	}
 	var cur []flow.LocalSig
-	for _, l := range flow.LocalSignaturesRoles(info, recv, ft, body) {
+	for _, l := range flow.LocalSignaturesInlined(info, recv, ft, body, inl) {
 		if l.Name != "_" {
 			cur = append(cur, l)
 		}
@@ -142,4 +146,137 @@ func (w *World) aliasesFor(fn string, info *types.Info, recv *ast.FieldList, ft 
 		}
 	}
 	return alias
+}
+
+// FunctionsKey is the snapshot entry that lists every function of the module at the time the rule tables were written.
+const FunctionsKey = "·functions"
+
+// knownFunc: the function existed when the rule tables were written.
+func (w *World) knownFunc(name string) bool {
+	if w.vocabFuncs == nil {
+		w.vocabFuncs = map[string]bool{}
+		for _, e := range w.Vocab[FunctionsKey] {
+			w.vocabFuncs[e.N] = true
+		}
+	}
+	return w.vocabFuncs[name]
+}
+
+// inliner: a function that did not exist when the rule tables were written and is called as a statement (or as the
+// operand of a return) from a function of the same package is read in place of the call: extracting a block into a
+// helper then changes nothing the rules see. Functions the tables know are never spliced, so on the tree the tables
+// were written for every graph is exactly the function's own.
+func (w *World) inliner(fn *load.Func, inLit bool) flow.InlineFunc {
+	if w.Vocab == nil || len(w.Vocab[FunctionsKey]) == 0 || inLit || w.NoSplice {
+		return nil
+	}
+	info := fn.Pkg.TypesInfo
+	return func(call *ast.CallExpr, tail bool) *flow.InlineDecision {
+		callee, ok := typeutil.Callee(info, call).(*types.Func)
+		if !ok {
+			return nil
+		}
+		src := w.P.FuncOf(callee)
+		if src == nil || src.Decl.Body == nil || src.Pkg != fn.Pkg || src.Obj != callee {
+			return nil // another package, no body, or an instantiated generic
+		}
+		if w.knownFunc(src.Name) || src.Decl == fn.Decl {
+			return nil
+		}
+		return &flow.InlineDecision{Decl: src.Decl, Bind: valueParamsModified(info, src.Decl)}
+	}
+}
+
+// valueParamsModified: the receiver/parameters of struct or array type (passed by value) that the function stores
+// into, takes the address of, or calls a pointer-receiver method on. What it does to them is done to a copy.
+func valueParamsModified(info *types.Info, decl *ast.FuncDecl) map[*ast.Ident]bool {
+	out := map[*ast.Ident]bool{}
+	cand := map[types.Object]*ast.Ident{}
+	addField := func(fl *ast.FieldList) {
+		if fl == nil {
+			return
+		}
+		for _, f := range fl.List {
+			for _, n := range f.Names {
+				if o := info.Defs[n]; o != nil {
+					switch o.Type().Underlying().(type) {
+					case *types.Struct, *types.Array:
+						cand[o] = n
+					}
+				}
+			}
+		}
+	}
+	addField(decl.Recv)
+	addField(decl.Type.Params)
+	if len(cand) == 0 {
+		return out
+	}
+	// root of an access path that stays inside the variable's own storage
+	root := func(e ast.Expr) types.Object {
+		for {
+			switch x := ast.Unparen(e).(type) {
+			case *ast.Ident:
+				return info.ObjectOf(x)
+			case *ast.SelectorExpr:
+				if t := info.TypeOf(x.X); t != nil {
+					if _, isPtr := t.Underlying().(*types.Pointer); isPtr {
+						return nil
+					}
+				}
+				e = x.X
+			case *ast.IndexExpr:
+				if t := info.TypeOf(x.X); t != nil {
+					if _, isArr := t.Underlying().(*types.Array); !isArr {
+						return nil
+					}
+				}
+				e = x.X
+			default:
+				return nil
+			}
+		}
+	}
+	mark := func(e ast.Expr) {
+		if o := root(e); o != nil {
+			if id, ok := cand[o]; ok {
+				out[id] = true
+			}
+		}
+	}
+	ast.Inspect(decl.Body, func(n ast.Node) bool {
+		switch x := n.(type) {
+		case *ast.AssignStmt:
+			for _, l := range x.Lhs {
+				mark(l)
+			}
+		case *ast.IncDecStmt:
+			mark(x.X)
+		case *ast.RangeStmt:
+			if x.Tok == token.ASSIGN {
+				if x.Key != nil {
+					mark(x.Key)
+				}
+				if x.Value != nil {
+					mark(x.Value)
+				}
+			}
+		case *ast.UnaryExpr:
+			if x.Op == token.AND {
+				mark(x.X)
+			}
+		case *ast.CallExpr:
+			if sel, ok := ast.Unparen(x.Fun).(*ast.SelectorExpr); ok {
+				if s := info.Selections[sel]; s != nil && s.Kind() == types.MethodVal {
+					if sig, ok := s.Obj().Type().(*types.Signature); ok && sig.Recv() != nil {
+						if _, ptrRecv := sig.Recv().Type().(*types.Pointer); ptrRecv {
+							mark(sel.X)
+						}
+					}
+				}
+			}
+		}
+		return true
+	})
+	return out
 }
